@@ -591,7 +591,8 @@ impl EncDriver {
                     }
                 };
                 match (&vec_dst, h.sink) {
-                    (Some(v), _) => out.out.extend_from_slice(&v[prefix.len()..]),
+                    // (a Vec shorter than its old contents was reported as a fault above)
+                    (Some(v), _) => out.out.extend_from_slice(v.get(prefix.len()..).unwrap_or(&[])),
                     (None, _) => {
                         let o = band + al;
                         if self.buf[..o].iter().any(|b| *b != CANARY8) || self.buf[o + cap..].iter().any(|b| *b != CANARY8) {
